@@ -605,3 +605,41 @@ UNITS.append(U(
     assumes=['htp_base64_decode_mem replaced by a stand-in that returns the harness\' decoded text (the split, not base64, is under test); every allocation may fail'],
     sub='real htp_parse_authorization_basic: user-id = bytes before the FIRST colon of the decoded text, password = all bytes after it (RFC 7617), DECLINED iff there is no colon; '
         'nothing reported unless OK; no leak'))
+
+# ---- small line predicates that decide what a line IS (header-block terminator, ignorable line, folding, status-line heuristic) ----
+LP_H = r'''
+typedef struct { unsigned char a[N]; size_t la; unsigned char pers; int next_no_lf; int c; } vin_t;
+static htp_connp_t LC; static htp_cfg_t LCFG;
+static int lp_ws(unsigned char c) { return c == 0x20 || (c >= 0x09 && c <= 0x0d); }
+void HARNESS(void) { VIN(vin_t);
+  VASSUME(in.la <= N);
+  unsigned char *d = c02_mk_buf(in.a, N);
+  if (d == NULL) return;
+  LC.cfg = &LCFG; LCFG.server_personality = (in.pers & 1) ? HTP_SERVER_IIS_5_1 : HTP_SERVER_APACHE_2;
+  /* reference, from the comments in the source: an empty line (CR LF / LF / CR) ends the header block; IIS 5.1 also accepts a line of white space only;
+     a line of ONE linear-white-space byte + LF ends it only when the caller says that no LF follows right away */
+  int empty = (in.la == 1 && (in.a[0] == '\n' || in.a[0] == '\r')) || (in.la == 2 && in.a[0] == '\r' && in.a[1] == '\n');
+  int allws = 1; for (size_t i = 0; i < N; i++) if (i < in.la && !lp_ws(in.a[i])) allws = 0;
+  int lwslf = in.la == 2 && (in.a[0] == ' ' || in.a[0] == '\t') && in.a[1] == '\n';
+  int want = ((in.pers & 1) && allws) ? 1 : empty ? 1 : lwslf ? in.next_no_lf : 0;
+  VASSERT(htp_connp_is_line_terminator(&LC, d, in.la, in.next_no_lf) == want, "header-block terminator equals the documented rule");
+  int wanti = ((in.pers & 1) && allws) ? 1 : empty ? 1 : 0;
+  VASSERT(htp_connp_is_line_ignorable(&LC, d, in.la) == wanti, "ignorable line (before a request/status line) equals the documented rule");
+  VASSERT(htp_is_folding_char(in.c) == (in.c == ' ' || in.c == '\t' || in.c == 0), "folding characters are SP, HT and NUL; in particular -1 (no byte available) is not one");
+  /* status-line heuristic (source comment: Firefox (?i)^\s*http): body unless the line, after leading white space / NUL bytes, starts with "http" in any letter case */
+  size_t p = 0; while (p < in.la && (lp_ws(in.a[p]) || in.a[p] == 0)) p++;
+  int looks = p + 4 <= in.la && (in.a[p] | 0x20) == 'h' && (in.a[p + 1] | 0x20) == 't' && (in.a[p + 2] | 0x20) == 't' && (in.a[p + 3] | 0x20) == 'p';
+  VASSERT(htp_treat_response_line_as_body(d, in.la) == !looks, "a line is taken for a status line iff it starts (after white space / NUL) with http in any case");
+  VASSERT(htp_treat_response_line_as_body(NULL, 0) == 1, "no line at all is body");
+  for (size_t i = 0; i < N; i++) VASSERT(d[i] == in.a[i], "the line is not modified");
+  free(d);
+  CANARY(); }'''
+UNITS.append(U(
+    name='ref_line_class_predicates', props=['C02', 'C03', 'C06'], kind='bounded', src=['htp_util.c'], link=['bstr.c'], replay='vin',
+    pre=UTIL_PRE, contracts_inc=['line_ref.h', 'c02_extract.h'], harness=LP_H,
+    defs={'quick': mk({'N': 6}), 'thorough': {'N': 9}},
+    flags_add=['--unwind', '12', '--unwinding-assertions', '--memory-leak-check'], flags_del=['--unsigned-overflow-check'], timeout=(300, 1200),
+    bound='all lines of every length 0..N (quick N=6, thorough N=9) over all byte values; two personalities (IIS 5.1 and a generic one); any int for the folding test',
+    assumes=AB,
+    sub='real htp_connp_is_line_terminator / htp_connp_is_line_ignorable / htp_is_folding_char / htp_treat_response_line_as_body equal their documented meaning '
+        '(these decide where a header block ends, which lines are skipped, what continues a header and whether bytes after a response are a status line or body)'))
